@@ -24,7 +24,9 @@ func (t *WSPKT) ReadPacket() (n int, b []byte, err error) {
 		return len(msg), msg, nil
 	}
 
-	return len(msg), msg, errors.New("not a binary packet")
+	// the protocol runs over binary messages only: whatever another kind of
+	// message carries is not packet data
+	return 0, nil, errors.New("not a binary packet")
 }
 
 func (t *WSPKT) WritePacket(b []byte) (n int, err error) {
